@@ -201,6 +201,20 @@ def tweak(rng, row, w, case):
         st_[k] = gen.DATA[0] + 4 * rng.randrange(2, 0x3E)
     else:
         k = gen.bank_key(f['n'], mode) if f['n'] <= 14 else None
+    dev = [m_ for m_ in case['mems'] if m_[0] == gen.DATA[0]]
+    if k and dev and 'drsrs[11]' in st_ and (dev[0][0] + dev[0][1]) % 4 in (2, 3) and rng.random() < 0.2:
+        # an unaligned access that starts in the last byte(s) of the data device, continues in the device behind it and meets a no-access word two or one
+        # bytes further on: the bytes in front of the aborting one belong to two devices
+        e_ = dev[0][0] + dev[0][1]
+        a_ = e_ - 1
+        imm = f.get('i', 0) if ('i' in f and 'U' in f and f.get('P', 1) and len(row.fields.get('i', ())) in (8, 12)) else 0
+        st_[k] = (a_ - imm if f.get('U', 1) else a_ + imm) & 0xFFFFFFFF
+        st_['drsrs[11]'] = (1 << 1) | 1
+        st_['drbars[11]'] = (a_ + 4) & ~3
+        st_['dracrs[11]'] = 0
+        st_['mpuir'] = 12 << 8
+        st_['sctlr'] &= ~2                      # SCTLR.A off: the access is made byte by byte where the architecture version supports it
+        return
     if k and 'drsrs[11]' in st_ and rng.random() < 0.08:
         # the access hits the word that holds the instruction itself, inside a small region that may be read (the fetch has just read it) but not
         # written at this privilege: the permission of a store is decided by its own direction, not by what an earlier access to the same word was allowed
